@@ -37,6 +37,15 @@ def load_known():
         return set(l.strip() for l in fh if l.strip() and not l.startswith('#'))
 
 
+def load_sigs():
+    f = os.path.join(HERE, 'known_sigs.json')
+    if not os.path.exists(f):
+        return {}
+    import json
+    with open(f) as fh:
+        return json.load(fh)
+
+
 def _is_place(x):
     return isinstance(x, dict) and len(x) == 2 and 'l' in x and 'p' in x and isinstance(x['l'], int)
 
@@ -691,6 +700,27 @@ def relocate_moved(P, known):
         sib = [x for x in unknown_free if x.rsplit('::', 1)[-1] == leaf]
         if len(cands) == 1 and len(sib) == 1:
             alias[u] = cands[0]
+    # renamed function / method: in one parent (module or impl type) exactly one known function disappeared and exactly
+    # one unknown function of the same kind, asyncness and signature appeared
+    sigs = load_sigs()
+    if sigs:
+        def parent(p):
+            return p.rsplit('::', 1)[0]
+        gone = {}
+        for k in known:
+            if k not in present and k not in alias.values() and k in sigs:
+                gone.setdefault(parent(k), []).append(k)
+        new = {}
+        for p, b in present.items():
+            if p not in known and p not in alias:
+                new.setdefault(parent(p), []).append(p)
+        for par, ks in gone.items():
+            us = new.get(par, [])
+            if len(ks) == 1 and len(us) == 1:
+                b = present[us[0]]
+                sg = sigs[ks[0]]
+                if [b.kind, bool(b.is_async), list(b.sig_in or []), b.sig_out] == [sg[0], bool(sg[1]), list(sg[2]), sg[3]]:
+                    alias[us[0]] = ks[0]
     if not alias:
         return alias
 
@@ -795,6 +825,10 @@ def apply(P, known=None):
         if h in still:
             continue
         hb = P.get(h)
+        if hb is not None and hb.trait:
+            # a trait method can be reached without being named (blanket impls such as Into for From, generic and dyn
+            # dispatch): it stays in the program even if every direct call was inlined
+            continue
         for p in list(P.bodies):
             if p == h or (hb is not None and hb.is_async and p == h + '::{closure#0}'):
                 inl.removed.append(p)
